@@ -34,6 +34,10 @@ class _NoInline(Exception):
     pass
 
 
+def unparse_(n):
+    return ast.unparse(n)
+
+
 def _is_private(name):
     return name.startswith('_') and not (name.startswith('__') and name.endswith('__'))
 
@@ -763,9 +767,37 @@ class Flattener(object):
         of the targets (they had been renamed away from exactly those names), the packing and unpacking disappear.
         Exact for normal completion; not applied when the call sits in a try of the caller."""
         if not (isinstance(stmt, ast.Assign) and len(stmt.targets) == 1 and isinstance(stmt.targets[0], ast.Tuple) and
-                isinstance(stmt.value, ast.Name) and stmt.value.id == res and
-                all(isinstance(t, ast.Name) for t in stmt.targets[0].elts)):
+                isinstance(stmt.value, ast.Name) and stmt.value.id == res):
             return None
+        if not all(isinstance(t, ast.Name) for t in stmt.targets[0].elts):
+            # data members among the targets (`self.Constant, text = helper(...)`): the stores are made where the tuple was packed
+            elts = stmt.targets[0].elts
+            if not all(isinstance(t, ast.Name) or (isinstance(t, ast.Attribute) and isinstance(t.value, ast.Name)) for t in elts):
+                return None
+            packs = [n for b in body for n in ast.walk(b) if isinstance(n, ast.Assign) and len(n.targets) == 1 and
+                     isinstance(n.targets[0], ast.Name) and n.targets[0].id == res]
+            uses = [n for b in body for n in ast.walk(b) if isinstance(n, ast.Name) and n.id == res and isinstance(n.ctx, ast.Load)]
+            names_in_body = set()
+            attrs_in_body = set()
+            for b in body:
+                names_in_body |= _all_names(b)
+                attrs_in_body |= {unparse_(n) for n in ast.walk(b) if isinstance(n, ast.Attribute)}
+            if not packs or uses or any(isinstance(t, ast.Name) and t.id in names_in_body for t in elts) or \
+                    any(isinstance(t, ast.Attribute) and unparse_(t) in attrs_in_body for t in elts) or \
+                    not all(isinstance(pk.value, ast.Tuple) and len(pk.value.elts) == len(elts) and
+                            not any(isinstance(e, ast.Starred) for e in pk.value.elts) for pk in packs):
+                return None
+
+            class Unpack2(ast.NodeTransformer):
+                def visit_Assign(self, n):
+                    if any(n is pk for pk in packs):
+                        return [ast.copy_location(ast.Assign(targets=[clone(t)], value=e), n) for t, e in zip(elts, n.value.elts)]
+                    return self.generic_visit(n)
+            out = []
+            for b in body:
+                r = Unpack2().visit(b)
+                out.extend(r if isinstance(r, list) else [r])
+            return _fill_empty(out)
         targets = [t.id for t in stmt.targets[0].elts]
         packs = [n for b in body for n in ast.walk(b) if isinstance(n, ast.Assign) and len(n.targets) == 1 and
                  isinstance(n.targets[0], ast.Name) and n.targets[0].id == res]
